@@ -17,6 +17,7 @@ def run(tier):
     # spec -> code
     rp = PC.behaviours(chk, tier, 40 if tier == "quick" else 400)
     trs = S.pmap(PS.run_part, rp)
+    chk.notes["replays_that_consumed_the_scripted_draws_differently"] = sum(1 for t in trs if any(e.get("k") == "script" for e in t.get("ev", [])))
     chk.validate("Trace_Session.tla", "Trace_Session.cfg", trs, "replay", sigfn=sig, nontrivial=lambda t: F.count_mk(t) >= 2)
     chk.notes["replayed_behaviours"] = len(trs)
     # code -> spec: direct sessions
